@@ -63,10 +63,8 @@ Best(S) == CHOOSE x \in S : \A y \in S : x >= y
 
 ---------------------------------------------------------------------------
 (* Layer A *)
-Exists(i, j) == i <= j /\ tp[i][j] > NoTr
-PerId(C) == {<<id, Best({c[2] : c \in {d \in C : d[1] = id}})>> : id \in {c[1] : c \in C}}
-(* sen[k][i]: score of state i under senone sequence k *)
-Moved(j, sen) == PerId(UNION {{<<p[1], p[2] + sen[sid[p[1]]][i] + tp[i][j]>> : p \in paths[i]} : i \in {k \in St : Exists(k, j)}})
+Sem == INSTANCE HmmSem
+Moved(j, sen) == Sem!Moved(tp, NoTr, N, paths, sid, j, sen)
 
 ScoresOf(P) == {p[2] : p \in P}
 (* what the object must show *)
@@ -194,8 +192,8 @@ Eval(sen) == /\ paths[0] # {}
                      (* Layer A for it: the path kept is a best one among those moved (ties: any); the ghost     *)
                      (* follows the object's choice.                                                               *)
                      LET e == Evaluated(sen)
-                         Kept(M, h) == {p \in M : p[1] = h}
-                         Good(M, h, s) == M = {} \/ (<<h, s>> \in M /\ s = Best(ScoresOf(M)))
+                         Kept(M, h) == Sem!Kept(M, h)
+                         Good(M, h, s) == Sem!Good(M, h, s)
                      IN /\ paths' = [j \in St |-> Kept(Moved(j, sen), e.hi[j])]
                         /\ outp' = Kept(Moved(N, sen), e.outh)
                         /\ okpick' = (Good(Moved(N, sen), e.outh, e.out) /\ \A j \in St : Good(Moved(j, sen), e.hi[j], e.sc[j]))
